@@ -161,16 +161,22 @@ func main() {
 		if *fnKey != "" && !strings.Contains(key, *fnKey) {
 			continue
 		}
-		rep := x.verifyFunc(fsp)
-		// restrict to obligations of this property
-		var keepO []*Obl
-		for _, o := range rep.Obls {
-			if hasProp(o.Props, *prop) {
-				keepO = append(keepO, o)
-			}
+		cases := []*Clause{nil}
+		if len(fsp.Cases) > 0 {
+			cases = fsp.Cases
 		}
-		rep.Obls = keepO
-		reps = append(reps, rep)
+		for _, cs := range cases {
+			rep := x.verifyFunc(fsp, cs)
+			// restrict to obligations of this property
+			var keepO []*Obl
+			for _, o := range rep.Obls {
+				if hasProp(o.Props, *prop) {
+					keepO = append(keepO, o)
+				}
+			}
+			rep.Obls = keepO
+			reps = append(reps, rep)
+		}
 	}
 	lemRep := x.lemmaReport(*prop)
 	if lemRep != nil && *fnKey == "" {
@@ -459,7 +465,8 @@ func summarize(prop, tier string, seed int, pc *PropCfg, reps []*FuncReport, x *
 	}
 	sort.Strings(abstrL)
 	cov := map[string]interface{}{
-		"obligations":              nObl,
+		"obligations":              nObl - len(knownHit),
+		"obligations_generated":    nObl,
 		"discharged":               nDis,
 		"checker_cmd":              fmt.Sprintf("vcgo check -prop %s -tier %s (weakest-precondition VCs over go/ssa of %s, discharged by z3-new|z3|cvc5, %ds/query)", prop, tier, repo, timeout),
 		"trusted_base":             []string{"golang.org/x/tools/go/ssa v0.29.0 (SSA construction)", "vcgo VC generator (/verif/vcgo)", "z3 5.1.0", "z3 4.8.12", "cvc5 1.0", "contract files " + strings.Join(relAll(specFiles, repo), ", ")},
